@@ -60,12 +60,17 @@ TP_CELLS = ("quadrilateral", "hexahedron")
 
 
 class Ctx:
-    def __init__(self, cell, cdeg=1, gdim=None):
+    def __init__(self, cell, cdeg=1, gdim=None, tpmesh=False):
         self.cell = cell
         self.tdim = TDIM[cell]
         self.gdim = gdim or self.tdim
         self.cdeg = cdeg
-        self.ce = basix.ufl.element("Lagrange", cell, cdeg, shape=(self.gdim,))
+        if tpmesh:
+            # tensor-product coordinate element (needed by ffcx for sum factorisation)
+            el = basix.create_tp_element(basix.ElementFamily.P, basix.CellType[cell], cdeg, basix.LagrangeVariant.gll_warped)
+            self.ce = basix.ufl.blocked_element(basix.ufl.wrap_element(el), shape=(self.gdim,))
+        else:
+            self.ce = basix.ufl.element("Lagrange", cell, cdeg, shape=(self.gdim,))
         self.mesh = Mesh(self.ce)
 
     def el(self, family, degree, shape=None, **kw):
@@ -105,7 +110,7 @@ def builder(fn):
 def build(recipe) -> Built:
     if recipe["b"] == "demo":
         return build_demo(recipe)
-    ctx = Ctx(recipe["cell"], recipe.get("cdeg", 1), recipe.get("gdim"))
+    ctx = Ctx(recipe["cell"], recipe.get("cdeg", 1), recipe.get("gdim"), recipe.get("tpmesh", False))
     out = BUILDERS[recipe["b"]](ctx, **recipe.get("p", {}))
     if isinstance(out, Built):
         return out
@@ -400,7 +405,7 @@ def manifold_mass(c, degree=2):
 @builder
 def tp_mass_stiff(c, degree=2, blocked=False):
     el = basix.create_tp_element(basix.ElementFamily.P, basix.CellType[c.cell], degree, basix.LagrangeVariant.gll_warped)
-    e = basix.ufl._BasixElement(el)
+    e = basix.ufl.wrap_element(el)
     if blocked:
         e = basix.ufl.blocked_element(e, shape=(c.gdim,))
     V = c.space(e)
